@@ -67,14 +67,20 @@ func parseTime(in string) (time.Time, error) {
 	var nsec int
 	if c == '.' || c == ',' {
 		remaining = remaining[1:]
+		if len(remaining) == 0 {
+			return time.Time{}, fmt.Errorf("too short to contain timezone")
+		}
 		// Fractional seconds!
 		var val, i int
 		var c rune
 		var mult int = 1e9
 		for i, c = range remaining {
 			if c >= '0' && c <= '9' {
-				val = val*10 + int(c-'0')
-				mult /= 10
+				// Digits beyond nanosecond precision are truncated, as time.Parse does.
+				if mult > 1 {
+					val = val*10 + int(c-'0')
+					mult /= 10
+				}
 			} else {
 				i -= 1
 				break
